@@ -95,6 +95,11 @@ def draw(rng, dom):
         return float(log_uniform(rng, 1e-6, 1e6) * rng.choice([-1.0, 1.0]))
     if dom == 'gen':
         return float(rng.normal() * 10 ** rng.uniform(-0.5, 0.5))
+    if dom == 'nz':       # scalar operand of a pose operator (also a divisor): special values and magnitudes, never 0
+        r = rng.random()
+        if r < 0.25:
+            return float(rng.choice([1.0, -1.0, 2.0, 0.5, -3.0]))
+        return float(log_uniform(rng, 1e-3, 1e3) * rng.choice([-1.0, 1.0]))
     raise ValueError(dom)
 
 
@@ -346,6 +351,52 @@ def forms():
     add('op.SE3*point', 'X*array3 (any 3x4 block)', [('X', M44, 'hom'), ('v', V3, 'gen')], lambda X, v: SE3(X, check=False) * v)
     add('op.SO3/SO3', 'R/Q (any 3x3)', [('R', M33, 'gen'), ('Q', M33, 'gen')], lambda R, Q: SO3(R, check=False) / SO3(Q, check=False))
     add('base.trinv2', 'T (any 2x3 block)', [('X', M33, 'hom')], base.trinv2)
+
+    # ---------------- simplify() on generic symbolic / mixed values with NON-ZERO translation, single and sequence:
+    # simplification must not change the value (numeric side: the un-simplified value)
+    add('SMPose.simplify', 'SE3(X)', [('X', M44, 'se3')], lambda X: SE3(X, check=False).simplify(), trace='tr_simplify_SE3',
+        numcall=lambda X: SE3(X, check=False))
+    add('SMPose.simplify', 'SE3([X,Y])[1]', [('X', M44, 'se3'), ('Y', M44, 'se3')], lambda X, Y: SE3([X, Y], check=False).simplify().A[1],
+        trace='tr_simplify_SE3_seq', numcall=lambda X, Y: SE3([X, Y], check=False).A[1])
+    add('SMPose.simplify', 'SE3([X,Y])[0]', [('X', M44, 'se3'), ('Y', M44, 'se3')], lambda X, Y: SE3([X, Y], check=False).simplify().A[0],
+        numcall=lambda X, Y: SE3([X, Y], check=False).A[0])
+    add('SMPose.simplify', 'SE2(X)', [('X', M33, 'se2')], lambda X: SE2(X, check=False).simplify(), trace='tr_simplify_SE2',
+        numcall=lambda X: SE2(X, check=False))
+    add('SMPose.simplify', 'SE2([X,Y])[1]', [('X', M33, 'se2'), ('Y', M33, 'se2')], lambda X, Y: SE2([X, Y], check=False).simplify().A[1],
+        trace='tr_simplify_SE2_seq', numcall=lambda X, Y: SE2([X, Y], check=False).A[1])
+    add('SMPose.simplify', 'SO3(R)', [('R', M33, 'rot')], lambda R: SO3(R, check=False).simplify(), trace='tr_simplify_SO3',
+        numcall=lambda R: SO3(R, check=False))
+    add('SMPose.simplify', 'SO2(A)', [('A', M22, 'rot2')], lambda A: SO2(A, check=False).simplify(), trace='tr_simplify_SO2',
+        numcall=lambda A: SO2(A, check=False))
+    add('SMPose.simplify', 'Rx(a,t=[x,2,z])', [('a', S, 'ang'), ('x', S, 'lin'), ('z', S, 'lin')], lambda a, x, z: SE3.Rx(a, t=[x, 2, z]).simplify(),
+        trace='tr_simplify_Rx_t', numcall=lambda a, x, z: SE3.Rx(a, t=[x, 2, z]))
+    add('SMPose.simplify', 'Tx(x)*Rx(0.3)*Ty(y)', [('x', S, 'lin'), ('y', S, 'lin')], lambda x, y: (SE3.Tx(x) * SE3.Rx(0.3) * SE3.Ty(y)).simplify(),
+        numcall=lambda x, y: SE3.Tx(x) * SE3.Rx(0.3) * SE3.Ty(y))
+    add('SMPose.simplify', 'Rx(a)*Tx(x)*Rx(b)', [('a', S, 'ang'), ('x', S, 'lin'), ('b', S, 'ang')], lambda a, x, b: (SE3.Rx(a) * SE3.Tx(x) * SE3.Ry(b)).simplify(),
+        numcall=lambda a, x, b: SE3.Rx(a) * SE3.Tx(x) * SE3.Ry(b))
+    add('SMPose.simplify', 'SE2(x,y,theta)', [('x', S, 'lin'), ('y', S, 'lin'), ('a', S, 'ang')], lambda x, y, a: SE2(x, y, a).simplify(),
+        numcall=lambda x, y, a: SE2(x, y, a))
+    add('SMPose.simplify', 'SE2(x,y,theta)*SE2(1,2,0.3)', [('x', S, 'lin'), ('y', S, 'lin'), ('a', S, 'ang')],
+        lambda x, y, a: (SE2(x, y, a) * SE2(1, 2, 0.3)).simplify(), numcall=lambda x, y, a: SE2(x, y, a) * SE2(1, 2, 0.3))
+    # ---------------- pose OP scalar: every operator, symbolic / mixed scalar (elementwise on the matrix, returns an array)
+    SC = [('mul', lambda P, k: P * k, 'X*s'), ('rmul', lambda P, k: k * P, 's*X'), ('div', lambda P, k: P / k, 'X/s'),
+          ('add', lambda P, k: P + k, 'X+s'), ('radd', lambda P, k: k + P, 's+X'), ('sub', lambda P, k: P - k, 'X-s'),
+          ('rsub', lambda P, k: k - P, 's-X')]
+    CL = [('SE3', SE3, M44, 'se3'), ('SO3', SO3, M33, 'rot'), ('SE2', SE2, M33, 'se2'), ('SO2', SO2, M22, 'rot2')]
+    for cn, C, sh, dom in CL:
+        for on, op, txt in SC:
+            add(f'op.{cn} scalar', txt, [('X', sh, dom), ('s', S, 'nz')], (lambda C, op: lambda X, k: op(C(X, check=False), k))(C, op),
+                trace=f'tr_{cn}_s{on}')
+            add(f'op.{cn} scalar', txt.replace('s', '0.5'), [('X', sh, dom)], (lambda C, op: lambda X: op(C(X, check=False), 0.5))(C, op),
+                trace=(f'tr_{cn}_s{on}_05' if cn == 'SE3' else None))   # 0.5: 1/0.5 is exact, so X/0.5 is an exact specialisation
+        add(f'op.{cn} scalar', 'X*(s+1)', [('X', sh, dom), ('s', S, 'nz')], (lambda C: lambda X, k: C(X, check=False) * (k + 1))(C),
+            trace=(f'tr_{cn}_smul_expr' if cn == 'SE3' else None))
+        add(f'op.{cn} scalar', '[X,Y]*s', [('X', sh, dom), ('Y', sh, dom), ('s', S, 'nz')],
+            (lambda C: lambda X, Y, k: (C([X, Y], check=False) * k)[1])(C), trace=(f'tr_{cn}_smul_seq' if cn == 'SE3' else None))
+    for on, op, txt in SC:          # numeric pose, symbolic scalar
+        add('op.SE3 scalar', txt.replace('X', 'Rx(0.3)'), [('s', S, 'nz')], (lambda op: lambda k: op(SE3.Rx(0.3, t=[1, 2, 3]), k))(op),
+            trace=('tr_SE3_num_smul' if on == 'mul' else None))
+        add('op.SE2 scalar', txt.replace('X', 'SE2(1,2,0.3)'), [('s', S, 'nz')], (lambda op: lambda k: op(SE2(1, 2, 0.3), k))(op))
     P2 = lambda X: SE2(hom(X), check=False)
     add('op.SE2*SE2', 'X*Y', [('X', M33, 'se2'), ('Y', M33, 'se2')], lambda X, Y: SE2(X, check=False) * SE2(Y, check=False), trace='tr_SE2_mul')
     add('op.SE2.inv', 'X.inv()', [('X', M33, 'se2')], lambda X: SE2(X, check=False).inv(), trace='tr_SE2_inv')
@@ -704,7 +755,7 @@ def consts_text():
 
 
 def run(ctx):
-    ctx.rule = ("obligations: theorems of theories/Props/C16_{a,b,c}.v over the traces regenerated from /repo (the library run on "
+    ctx.rule = ("obligations: theorems of theories/Props/C16_{a,b,c,d,e}.v over the traces regenerated from /repo (the library run on "
                 "SymPy symbols, every ':SymPy: supported' entry enumerated from the docstrings + pose operators, every call form); "
                 "evaluations: oracle points (numbers substituted into the symbolic result vs the numeric call, 1e-12) + Sym==Num "
                 "cases (extracted Gallina vs numeric call); a case is distinct by its (entry, call form, arguments) signature")
@@ -734,7 +785,7 @@ def run(ctx):
         ctx.fail('gen:compile', 'generated traces do not compile: ' + err[-800:], no_input=True)
         return
     ctx.stats['traces'] = len(g.traces)
-    for f in ('C16_a.v', 'C16_b.v', 'C16_c.v', 'C16_d.v'):
+    for f in ('C16_a.v', 'C16_b.v', 'C16_c.v', 'C16_d.v', 'C16_e.v'):
         p = os.path.join(core.COQ, 'theories', 'Props', f)
         if os.path.exists(p):
             ctx.prove('theories/Props/' + f)
